@@ -270,7 +270,7 @@ fn run_c04(args: &Args) -> Report {
             trivia: if r.chance(3, 4) { Trivia::Wild } else { Trivia::Plain },
             non_ascii: r.chance(1, 2),
         };
-        let case_seed = r.next_u64();
+        let Some(case_seed) = args.next_case(&mut r) else { break };
         let mut cr = Rng::new(case_seed);
         let ws = gen::generate(&mut cr, &cfg);
         for (mi, m) in ws.modules.iter().enumerate() {
